@@ -679,6 +679,8 @@ def check_cipher(ck, mod, f, label, rulemap):
                 abs_tag = gt[0][3] == repr(Lf({A["c"]: 1, A["mlen"]: 1}))
                 if abs_tag:
                     want_ptr = gt[0][3]        # addressed from the entry values: c + mlen is the tag position by definition
+                elif idx_style:
+                    raise Broken("%s: index-based encryption that does not address the tag as c + mlen: this shape is not analysed" % f.name)
                 c.ob(gt[0][3] == want_ptr, "TAGPOS", "%s-tag-position" % name, "tag written right after the %d ciphertext byte(s) of this tail" % r,
                      "tag is written at %s, expected %s" % (gt[0][3], want_ptr))
                 wr = {k[1] for k in outs if k[0] == out_cur}
@@ -713,6 +715,10 @@ def check_cipher(ck, mod, f, label, rulemap):
                 want_ptr = repr(Lf({in_cur: 1, 1: r}) if r else Lf.s(in_cur))
                 if ch[0][5] == repr(Lf({A["c"]: 1, A["clen"]: 1, 1: -8})):
                     want_ptr = ch[0][5]        # addressed from the entry values: c + clen - 8 is the tag position by definition
+                elif idx_style and dv:
+                    # index style: c + 4*(full words) + left-over bytes is the same position
+                    alts = {repr(Lf({A["c"]: 1, dv[0][0]: 4, 1: r})), repr(Lf({A["c"]: 1, dv[0][0]: 4, dv[0][1]: 1}))}
+                    want_ptr = ch[0][5] if ch[0][5] in alts else sorted(alts)[0]
                 c.ob(ch[0][5] == want_ptr and ch[0][6] == 8, "TAGPOS", "%s-received-tag" % name, "received tag read right after the %d ciphertext byte(s) of this tail (8 bytes)" % r,
                      "received tag is read at %s (%s bytes), expected %s" % (ch[0][5], ch[0][6], want_ptr))
                 c.ob(ch[0][2] == repr(Lf.s(A["m"])), "WIPESTART", "%s-wipe-start" % name, "check_tag gets the start of the plaintext buffer", "check_tag gets %s as plaintext pointer" % ch[0][2])
